@@ -1,13 +1,27 @@
 (* Correspondence for C14: State.__eq__, copy, serialize on the implementation versus the model (Model/State.v)
-   and the spec (Spec/State.v).  One environment per run (all states of the run, dumped from the Python objects in
+   and the spec (Spec/State.v).  One environment per group (all states of the group, dumped from the Python objects in
    their actual dict / set iteration order, with everything the implementation answered about each of them), and
-   cases that are either one state or an ordered pair of states. *)
+   cases that are either one state or an ordered pair of states.
+
+   A group is observed at ONE moment of the worker process.  A process-level sequence (harness: kind "sequence") yields
+   two groups: the states observed before some unrelated library calls happened in the process, and the same Python
+   objects observed again afterwards together with states built afterwards; the intended value ([si_want]) of a state
+   does not depend on the moment, so a state whose printed / compared / serialized value changed because of calls that
+   never touched it fails [v_ok] in the second group.
+
+   The finding class (D07) is decided on the INPUT only: the generator's description of the state ([si_want]), or of
+   what it was derived from ([si_src_rep]), contains a ground fluent or an action call with a repeated argument.  What
+   the implementation made of the input (the dump) never decides the class. *)
 From Coq Require Import List Ascii String Bool Arith PrimFloat.
-From Verif Require Import Base.Result Base.Str Base.Sexp Base.PyDict Base.Float Model.Tokenizer Model.Domain
-  Model.State Spec.Pddl Spec.State Corr.Common.
+From Verif Require Import Base.Result Base.Str Base.Sexp Base.PyDict Base.Float Model.Tokenizer Model.Types Model.Domain
+  Model.State Model.Trajectory Spec.Pddl Spec.State Corr.Common.
 Import ListNotations.
 Open Scope string_scope.
 Open Scope list_scope.
+
+(* the parsed domain's vocabulary, dumped from the implementation (domain parsing itself is C01's subject) *)
+Definition vocab (types consts : pydict string) (preds funcs : pydict signature) : mdomain :=
+  {| d_name := ""; d_reqs := []; d_types := types; d_consts := consts; d_preds := preds; d_funcs := funcs; d_actions := [] |}.
 
 Record sinfo := {
   si_dump : mstate;                 (* the Python object, field by field *)
@@ -16,13 +30,19 @@ Record sinfo := {
   si_self_eq : obs bool;            (* s == s *)
   si_copy_eq : obs bool;            (* s.copy() == s and s == s.copy() *)
   si_copy_ser : obs string;         (* s.copy().serialize() *)
-  si_indep : obs bool               (* mutating the copy leaves s as it was, and the other way round *)
+  si_indep : obs bool;              (* mutating the copy leaves s as it was, and the other way round *)
+  si_src_rep : bool;                (* INPUT: the description this state is derived from has a repeated argument *)
+  (* s.serialize() read back by the library's own reader, TrajectoryParser(domain, problem).parse_state, with the
+     group's object table / without a problem: (s' == s and s == s', s'.serialize()); None: not observed *)
+  si_rb_with : option (obs (bool * string));
+  si_rb_ded : option (obs (bool * string))
 }.
 
 Record env := {
   e_repr : list (float * string);   (* repr(x) for every value met in this run *)
   e_nums : list (string * float);   (* float(text) for every numeral text met in this run *)
-  e_states : list sinfo
+  e_states : list sinfo;
+  e_ctx : option (mdomain * pydict string)   (* the domain and the object table the library's reader is run with *)
 }.
 
 Inductive case :=
@@ -40,7 +60,7 @@ Section Judge.
 
   Definition dummy : sinfo :=
     {| si_dump := empty_state false; si_want := None; si_ser := Raised; si_self_eq := Raised; si_copy_eq := Raised;
-       si_copy_ser := Raised; si_indep := Raised |}.
+       si_copy_ser := Raised; si_indep := Raised; si_src_rep := false; si_rb_with := None; si_rb_ded := None |}.
   Definition st (i : nat) : sinfo := nth i (e_states E) dummy.
 
   Definition den (s : mstate) : state := {| facts := den_facts s; fluents := den_fluents s |}.
@@ -61,11 +81,48 @@ Section Judge.
     | None => false
     end.
 
-  (* finding D07: a ground fluent with a repeated argument *)
+  (* finding D07: a ground fluent with a repeated argument -- in the generator's description, never in the dump *)
   Definition has_repeat (s : state) : bool := existsb (fun kv => has_dup (snd (fst kv))) (fluents s).
-  Definition known_state (i : sinfo) : bool := has_repeat (want i) || has_repeat (den (si_dump i)).
+  Definition known_state (i : sinfo) : bool :=
+    match si_want i with Some w => has_repeat w | None => false end || si_src_rep i.
 
   Definition is_true (o : obs bool) : bool := obs_eqb Bool.eqb o (Returned true).
+
+  (* ---------- the library's reader on the state's own text (Model/Trajectory.parse_state) ---------- *)
+  Definition model_readback (dom : mdomain) (problem : option (pydict string)) (s : mstate) : obs (bool * mstate) :=
+    match parse MFile (s2t (serialize num_text s)) with
+    | Ok (SList (Atom _ :: items)) =>
+        match parse_state dom num_parse problem items with
+        | Ok s' => Returned (state_eq num_text s' s && state_eq num_text s s', s')
+        | Err _ => Raised
+        end
+    | _ => Raised
+    end.
+
+  Definition rb_agrees (m : obs (bool * mstate)) (o : obs (bool * string)) : bool :=
+    match m, o with
+    | Returned (b, s'), Returned (b', t) => Bool.eqb b b' && reads_as (Returned t) false (den s')
+    | Raised, Raised => true
+    | _, _ => false
+    end.
+
+  Definition rb_ok (o : obs (bool * string)) (w : state) : bool :=
+    match o with
+    | Returned (b, t) => b && reads_as (Returned t) false w
+    | Raised => false
+    end.
+
+  Definition rb_agree_all (i : sinfo) : bool :=
+    match e_ctx E with
+    | Some (dom, objs) =>
+        match si_rb_with i with Some o => rb_agrees (model_readback dom (Some objs) (si_dump i)) o | None => true end &&
+        match si_rb_ded i with Some o => rb_agrees (model_readback dom None (si_dump i)) o | None => true end
+    | None => true
+    end.
+
+  Definition rb_ok_all (i : sinfo) : bool :=
+    match si_rb_with i with Some o => rb_ok o (want i) | None => true end &&
+    match si_rb_ded i with Some o => rb_ok o (want i) | None => true end.
 
   Definition judge_state (i : sinfo) : verdict :=
     let s := si_dump i in
@@ -75,13 +132,15 @@ Section Judge.
                           (match si_ser i with Returned t => obs_of_result (parse MFile (unesc t)) | Raised => Raised end) &&
          obs_eqb Bool.eqb (Returned (state_eq num_text s s)) (si_self_eq i) &&
          obs_eqb Bool.eqb (Returned (state_eq num_text (state_copy s) s && state_eq num_text s (state_copy s))) (si_copy_eq i) &&
-         reads_as (si_copy_ser i) (st_init s) (den (state_copy s));
+         reads_as (si_copy_ser i) (st_init s) (den (state_copy s)) &&
+         rb_agree_all i;
        v_ok :=
          state_same (den s) (want i) &&                 (* the object holds the intended facts and fluents *)
          reads_as (si_ser i) (st_init s) (want i) &&    (* its text reads back as the intended state *)
          is_true (si_self_eq i) && is_true (si_copy_eq i) &&
          reads_as (si_copy_ser i) (st_init s) (want i) &&
-         is_true (si_indep i);
+         is_true (si_indep i) &&
+         rb_ok_all i;                                   (* ... also through the library's own reader *)
        v_known := known_state i |}.
 
   Definition judge_pair (a b : sinfo) (eq_ab : obs bool) : verdict :=
@@ -121,11 +180,20 @@ Section Judge.
 
   Definition run_cases (cases : list case) : list ascii := map verdict_char (flat_map judge_multi cases).
 
+  Definition rb_explain (i : sinfo) :=
+    match e_ctx E with
+    | Some (dom, objs) =>
+        (option_map (fun _ => match model_readback dom (Some objs) (si_dump i) with Returned (b, s') => Some (b, den s') | Raised => None end) (si_rb_with i),
+         option_map (fun _ => match model_readback dom None (si_dump i) with Returned (b, s') => Some (b, den s') | Raised => None end) (si_rb_ded i))
+    | None => (None, None)
+    end.
+
   Definition explain (c : case) :=
     match c with
-    | CState i => (judge (CState i), serialize num_text (si_dump (st i)), read_obs (si_ser (st i)), want (st i), den (si_dump (st i)))
-    | CPair i j e => (judge c, serialize num_text (si_dump (st i)), read_obs (si_ser (st j)), want (st i), want (st j))
-    | _ => (judge c, "", None, den (empty_state false), den (empty_state false))
+    | CState i => (judge (CState i), serialize num_text (si_dump (st i)), read_obs (si_ser (st i)), want (st i), den (si_dump (st i)),
+                   rb_explain (st i))
+    | CPair i j e => (judge c, serialize num_text (si_dump (st i)), read_obs (si_ser (st j)), want (st i), want (st j), (None, None))
+    | _ => (judge c, "", None, den (empty_state false), den (empty_state false), (None, None))
     end.
 End Judge.
 
